@@ -124,7 +124,7 @@ func (g *genState) next(h *histRun, i int) *hop {
 			return o
 		case x < g.p.pIter+g.p.pSetID+g.p.pPublish+0.5:
 			pc := pick(rng, g.p.pcs)
-			o := &hop{Kind: "append", R: rng.Intn(appendable), Payload: fmt.Sprintf("p%d", rng.Intn(6)), PC: pc}
+			o := &hop{Kind: "append", R: rng.Intn(appendable), Payload: []string{"p0", "p1", "p2", "p3", "p4", ""}[rng.Intn(6)], PC: pc}
 			if g.p.pPin > 0 && rng.Float64() < g.p.pPin {
 				o.Pin = true
 			}
@@ -465,6 +465,9 @@ func runLogProp(cfg logRunCfg) func(seed int64, tier string, outDir string) *res
 				runPartialJoinScenarios(xr, na, st, xf)
 				if cfg.prop == "C02" {
 					runPinFaultScenarios(xr, na, st, xf)
+				}
+				if cfg.prop == "C03" {
+					runSeededClockScenarios(xr, na, st, xf)
 				}
 				if cfg.prop == "C05" {
 					runMixedCodecScenarios(xr, na, st, xf)
